@@ -224,7 +224,12 @@ class SyncManager(Runnable):
         need_to_sleep = True
         something_got_done = False  # shouldn't this be default False? Don't assume there will be no exceptions...
         with self.state.lock:
-            sync: SyncEntry = self.state.change(self.aging)
+            try:
+                sync: SyncEntry = self.state.change(self.aging)
+            except ex.CloudException as e:
+                # change() fills in missing paths with provider calls (get_latest): report a failure like any other
+                self._nmgr.notify_from_exception(SourceEnum.SYNC, e)
+                self.backoff()  # raises a backoff error to the caller
             if sync:
                 log.log(TRACE, "do sync=%s", sync)
                 need_to_sleep = False
